@@ -215,7 +215,10 @@ fn write_target_manifests(
     for (idx, root) in roots.iter().enumerate() {
         let manifest_path = manifest_path_for_target(&root.root, &root.target);
         let existed = manifest_path.exists();
-        let should_write = existed || !per_root[idx].is_empty() || root_had_changes[idx];
+        let should_write = existed
+            || !per_root[idx].is_empty()
+            || root_had_changes[idx]
+            || crate::target_manifest::legacy_manifest_lists_entries(root);
         if !should_write {
             continue;
         }
